@@ -14,11 +14,28 @@ TRUSTED = ["clang 14 front end + CFG builder", "tool/lcbfacts.cc", "rules/core.p
 RADIUS = common.hdr_unit("radius.h", "proto/radius.h")
 
 
+def pad_names(fi):
+    """(inner pad local, outer pad field) found by role: the objects XORed with 0x36.. and 0x5c.. in hmac_*_init"""
+    ip = op = None
+    for pos, root, n, parents in fi.nodes():
+        if n.get("k") == "bin" and n["op"] == "^=":
+            c = const_val(n["y"])
+            base = key(n["x"]).split("[")[0]
+            if c is not None and (c & 0xff) == 0x36:
+                ip = base
+            elif c is not None and (c & 0xff) == 0x5c:
+                op = base
+    if ip is None or op is None:
+        raise driver.AnalysisBroken("%s: inner/outer pad objects not found (no ^= 0x36.. / 0x5c..)" % fi.name)
+    return ip, op.split("->")[-1].split(".")[-1]
+
+
 def skeleton(rep, h, t, u):
     """RFC 2104 structure of hmac_*_init / hmac_*_final"""
     fi = u.fn(t["hmac_init"])
     ff = u.fn(t["hmac_final"])
     hidx = t["hctx_param_init"]
+    IPAD, OPAD = pad_names(fi)
     # --- XOR constants over the whole block
     xors = {}
     for pos, root, n, parents in fi.nodes():
@@ -26,20 +43,20 @@ def skeleton(rep, h, t, u):
             c = const_val(n["y"])
             tgt = key(n["x"])
             xors[tgt.split("[")[0]] = (c, n)
-    want = {"k_ipad": 0x3636363636363636, "k_opad": 0x5c5c5c5c5c5c5c5c}
-    for nm, val in want.items():
+    want = {IPAD: ("ipad", 0x3636363636363636), OPAD: ("opad", 0x5c5c5c5c5c5c5c5c)}
+    for nm, (role, val) in want.items():
         got = [(k_, v) for k_, v in xors.items() if k_.endswith(nm)]
         if got and got[0][1][0] is not None and (got[0][1][0] & 0xffffffffffffffff) == val:
-            rep.proved("R-SKEL", fi, "xor-" + nm, "%s is XORed with 0x%x" % (nm, val), "line %s" % got[0][1][1]["ln"])
+            rep.proved("R-SKEL", fi, "xor-" + role, "%s (%s) is XORed with 0x%x" % (role, nm, val), "line %s" % got[0][1][1]["ln"])
         else:
-            rep.violated("R-SKEL", fi, "xor-" + nm, "%s is XORed with 0x%x" % (nm, val),
+            rep.violated("R-SKEL", fi, "xor-" + role, "%s (%s) is XORed with 0x%x" % (role, nm, val),
                          "found %s" % ([hex(v[0]) if v[0] is not None else None for _, v in got]))
     # loop bound * 8 == sizeof(k_ipad)
     ipad_size = None
     for bid, i, e in fi.roots():
         if e.get("k") == "decl":
             for v in e["vars"]:
-                if v["n"] == "k_ipad":
+                if v["n"] == IPAD:
                     ipad_size = u.type(v["t"]).get("size")
     loopok = False
     for bid in fi.reachable_blocks():
@@ -101,7 +118,7 @@ def skeleton(rep, h, t, u):
     for pos, root, c, ps in ff.calls({t["final"], t["init"], t["update"]}):
         what = c["fn"]
         if what == t["update"]:
-            what += ":" + ("opad" if "k_opad" in key(c["args"][1]) else "digest" if r_mpt.param_index(ff, c["args"][1]) == 1 else "?")
+            what += ":" + ("opad" if OPAD in key(c["args"][1]) else "digest" if r_mpt.param_index(ff, c["args"][1]) == 1 else "?")
         seq.append((pos, what))
     # order by dominance (straight-line expected)
     seq.sort(key=lambda x: (-x[0][0], x[0][1]))
@@ -117,7 +134,7 @@ def skeleton(rep, h, t, u):
                      " -> ".join(names) + ("" if linear else " (not a single path)"))
     # opad update length == block size
     for pos, root, c, ps in ff.calls({t["update"]}):
-        if "k_opad" in key(c["args"][1]):
+        if OPAD in key(c["args"][1]):
             L = c["args"][2]
             if const_val(L) == t["blk"] or key(L).endswith("block_size"):
                 rep.proved("R-SKEL", ff, "opad-length", "outer pad is absorbed for exactly one block", key(L))
@@ -126,7 +143,7 @@ def skeleton(rep, h, t, u):
     # inner update with k_ipad for block size
     ok = False
     for pos, root, c, ps in fi.calls({t["update"]}):
-        if "k_ipad" in key(c["args"][1]):
+        if IPAD in key(c["args"][1]):
             L = c["args"][2]
             if const_val(L) == t["blk"] or key(L).endswith("block_size"):
                 ok = True
@@ -134,7 +151,7 @@ def skeleton(rep, h, t, u):
     # zero padding memset(k_ipad + n, 0, BLK - n)
     ok = False
     for pos, root, c, ps in fi.calls({"memset"}):
-        if "k_ipad" in key(c["args"][0]) and const_val(c["args"][1]) == 0:
+        if IPAD in key(c["args"][0]) and const_val(c["args"][1]) == 0:
             d, L = core.strip_casts(c["args"][0]), core.strip_casts(c["args"][2])
             if d.get("k") == "bin" and d["op"] == "+" and L.get("k") == "bin" and L["op"] == "-" and \
                     key(d["y"]) == key(L["y"]) and const_val(L["x"]) == ipad_size:
@@ -162,10 +179,11 @@ def run(rep, tier):
                 raise driver.AnalysisBroken("anchor %s vanished in %s" % (nm, u.label))
         fi, ff = u.fn(t["hmac_init"]), u.fn(t["hmac_final"])
         rep.functions.update([fi.name, ff.name, t["hmac"]])
-        obj, mention = r_wipe.local_obj(fi, "k_ipad")
-        r_wipe.check_wipe(rep, fi, u, "k_ipad", obj, mention)
-        obj, mention = r_wipe.field_obj(ff, 0, "k_opad")
-        r_wipe.check_wipe(rep, ff, u, "hctx->k_opad", obj, mention)
+        IPAD, OPAD = pad_names(fi)
+        obj, mention = r_wipe.local_obj(fi, IPAD)
+        r_wipe.check_wipe(rep, fi, u, "ipad", obj, mention)
+        obj, mention = r_wipe.field_obj(ff, 0, OPAD)
+        r_wipe.check_wipe(rep, ff, u, "hctx->opad", obj, mention)
         r_wipe.check_call_on_all_paths(rep, ff, "inner context wiped by " + t["final"], {t["final"]})
         n += 2
         skeleton(rep, h, t, u)
